@@ -86,7 +86,7 @@ const HDR: FuncDef = func!(
         let hdr = udp_hdr {
             sport: src.to_be(),
             dport: dst.to_be(),
-            len: (len + std::mem::size_of::<udp_hdr>() as u16).to_be(),
+            len: len.wrapping_add(std::mem::size_of::<udp_hdr>() as u16).to_be(),
             csum: csum.to_be(),
         };
 
